@@ -66,13 +66,21 @@ Record(act, args, ok) == hist' = Append(hist, [act |-> act, args |-> args, ok |-
 Bound == Len(hist) < MaxDepth
 Init == file = Absent /\ hist = <<>>
 
-\* Dataset({keys: pool arrays}).write_nc(f, mode='w', format=fmt)  with dataset metadata id g
-WriteDatasetA(arrs, tag, fmt, g) ==
+\* Dataset({keys: pool arrays}).write_nc(f, mode=m, format=fmt)  with dataset metadata id g.  The modes mean what they mean for
+\* one array: w starts a new file, w- refuses to touch an existing one, a needs one, a+ appends or creates.  Appending adds the
+\* Dataset's new dimensions and its variables to the file and updates the file's metadata with the Dataset's (when it has any).
+WriteDatasetA(arrs, tag, fmt, g, m) ==
   /\ Bound /\ Len(arrs) <= Len(Keys)
-  /\ (fmt # "NETCDF4" => \A i \in 1..Len(arrs) : StrFree(arrs[i]))
-  /\ file' = [AddAll(Empty(fmt), SubSeq(Keys, 1, Len(arrs)), arrs) EXCEPT !.gattrs = g]
-  /\ Record("write_dataset", [idxs |-> tag, fmt |-> fmt, g |-> g, k |-> "", mode |-> ""], TRUE)
-WriteDataset(idxs, fmt, g) == WriteDatasetA([i \in 1..Len(idxs) |-> Pool[idxs[i]]], idxs, fmt, g)
+  /\ LET exists == file.present
+         fresh == m = "w" \/ (m \in {"w-", "a+"} /\ ~exists)
+         fails == (m = "w-" /\ exists) \/ (m = "a" /\ ~exists)
+         target == IF fresh THEN Empty(fmt) ELSE file
+     IN /\ (~fails /\ target.format # "NETCDF4" => \A i \in 1..Len(arrs) : StrFree(arrs[i]))
+        /\ (~fails /\ ~fresh => \A i \in 1..Len(arrs) : HasVar(file, Keys[i]) => VarOf(file, Keys[i]).dims = arrs[i].dims /\ VarOf(file, Keys[i]).dtype = arrs[i].dtype)
+        /\ IF fails THEN UNCHANGED file /\ Record("write_dataset", [idxs |-> tag, fmt |-> fmt, g |-> g, k |-> "", mode |-> m, nk |-> Len(arrs)], FALSE)
+           ELSE /\ file' = [AddAll(target, SubSeq(Keys, 1, Len(arrs)), arrs) EXCEPT !.gattrs = IF g # 0 THEN g ELSE target.gattrs]
+                /\ Record("write_dataset", [idxs |-> tag, fmt |-> fmt, g |-> g, k |-> "", mode |-> m, nk |-> Len(arrs)], TRUE)
+WriteDataset(idxs, fmt, g, m) == WriteDatasetA([i \in 1..Len(idxs) |-> Pool[idxs[i]]], idxs, fmt, g, m)
 
 \* a.write_nc(f, name=k, mode=m, format=fmt) for an explicit array a; `tag` is what the event records about the array
 WriteArrayA(a, tag, k, m, fmt) ==
@@ -86,8 +94,8 @@ WriteArrayA(a, tag, k, m, fmt) ==
         /\ (~fresh /\ ~fails /\ file.format # "NETCDF4" => StrFree(a))
         \* overwriting an existing variable requires the same dimensions
         /\ (~fresh /\ ~fails /\ HasVar(file, k) => VarOf(file, k).dims = a.dims /\ VarOf(file, k).dtype = a.dtype)
-        /\ IF fails THEN UNCHANGED file /\ Record("write_array", [idxs |-> tag, fmt |-> fmt, g |-> 0, k |-> k, mode |-> m], FALSE)
-           ELSE file' = AddVar(target, k, a) /\ Record("write_array", [idxs |-> tag, fmt |-> fmt, g |-> 0, k |-> k, mode |-> m], TRUE)
+        /\ IF fails THEN UNCHANGED file /\ Record("write_array", [idxs |-> tag, fmt |-> fmt, g |-> 0, k |-> k, mode |-> m, nk |-> 1], FALSE)
+           ELSE file' = AddVar(target, k, a) /\ Record("write_array", [idxs |-> tag, fmt |-> fmt, g |-> 0, k |-> k, mode |-> m, nk |-> 1], TRUE)
 WriteArray(i, k, m, fmt) == WriteArrayA(Pool[i], <<i>>, k, m, fmt)
 
 \* with open_nc(f, 'a') as ds: ds[k] = a
@@ -97,11 +105,13 @@ OpenSetItemA(a, tag, k) ==
      /\ (file.format # "NETCDF4" => StrFree(a))
      /\ (HasVar(file, k) => VarOf(file, k).dims = a.dims /\ VarOf(file, k).dtype = a.dtype)
      /\ file' = AddVar(file, k, a)
-     /\ Record("open_setitem", [idxs |-> tag, fmt |-> "", g |-> 0, k |-> k, mode |-> "a"], TRUE)
+     /\ Record("open_setitem", [idxs |-> tag, fmt |-> "", g |-> 0, k |-> k, mode |-> "a", nk |-> 1], TRUE)
 OpenSetItem(i, k) == OpenSetItemA(Pool[i], <<i>>, k)
 
 Next ==
-  \/ \E n \in 0..2 : \E idxs \in [1..n -> DsPool] : \E fmt \in Formats : \E g \in {0, 9} : WriteDataset(idxs, fmt, g)
+  \/ \E n \in 0..2 : \E idxs \in [1..n -> DsPool] : \E fmt \in Formats : \E g \in {0, 9} : \E m \in {"w", "a", "a+"} :
+        \* (mode w- is not generated for Datasets: Dataset.write_nc passes clobber=True by default, so w- overwrites - outside C19)
+        (m # "w" => n >= 1) /\ WriteDataset(idxs, fmt, g, m)
   \/ \E i \in 1..Len(Pool) : \E k \in {"a", "b"} : \E m \in {"w", "w-", "a", "a+"} : \E fmt \in Formats : WriteArray(i, k, m, fmt)
   \/ \E i \in 1..Len(Pool) : \E k \in {"a", "c"} : OpenSetItem(i, k)
 Spec == Init /\ [][Next /\ (Emit => PrintT(ToJson([op |-> "nc_path", path |-> hist'])))]_allvars
@@ -120,9 +130,12 @@ Consistent ==
 AppendKeeps ==
   [][LET e == hist'[Len(hist')] IN
      (Len(hist') > Len(hist) /\ file.present /\ e.ok /\ e.args.mode \in {"a", "a+"}) =>
-        /\ \A i \in 1..Len(file.vars) : file.vars[i].key # e.args.k =>
+        /\ \A i \in 1..Len(file.vars) :
+              (IF e.act = "write_dataset" THEN \A q \in 1..e.args.nk : Keys[q] # file.vars[i].key ELSE file.vars[i].key # e.args.k) =>
               \E j \in 1..Len(file'.vars) : file'.vars[j] = file.vars[i]
-        /\ SubSeq(file'.dims, 1, Len(file.dims)) = file.dims /\ file'.gattrs = file.gattrs /\ file'.format = file.format]_allvars
+        /\ SubSeq(file'.dims, 1, Len(file.dims)) = file.dims /\ file'.format = file.format
+        \* the file's own metadata stay, unless a Dataset that has metadata is appended
+        /\ (file'.gattrs = file.gattrs \/ (e.act = "write_dataset" /\ e.args.g # 0 /\ file'.gattrs = e.args.g))]_allvars
 \* a failed write leaves the file as it was
 FailUnchanged == [][(Len(hist') > Len(hist) /\ ~hist'[Len(hist')].ok) => file' = file]_allvars
 =============================================================================
